@@ -11,6 +11,7 @@ namespace Model
 structure RatEntry (ν : Type) where
   vals : List ν      -- `values[k]`, always `length` long
   idx : Nat          -- `idx[k]`, index of the newest slot
+  wrapped : Bool := false  -- `wrapped[k]`: the ring has been filled at least once
   deriving Repr, Inhabited
 
 structure Rat (κ ν : Type) where
@@ -29,16 +30,18 @@ def read (r : Rat κ ν) (k : κ) : ν × Bool :=
   | none => (default, false)
   | some e => (e.vals.getD e.idx default, true)
 
-/-- Scan order of `Find` / `FindValues`: `idx, idx-1, …, 0, length-1, …, idx+1`. -/
-def scanOrder (length idx : Nat) : List Nat :=
-  (List.range (idx + 1)).reverse ++ ((List.range length).reverse.filter (fun i => idx < i))
+/-- Scan order of `Find` / `FindValues`: `idx, idx-1, …, 0`, then — only once the ring
+has wrapped, i.e. those slots were written — `length-1, …, idx+1`. -/
+def scanOrder (length idx : Nat) (wrapped : Bool) : List Nat :=
+  (List.range (idx + 1)).reverse ++
+    (if wrapped then (List.range length).reverse.filter (fun i => idx < i) else [])
 
 /-- `Find(k, p)`: newest-to-oldest scan of the ring, first slot satisfying `p`. -/
 def find (r : Rat κ ν) (k : κ) (p : ν → Bool) : ν × Bool :=
   match r.tab.find? k with
   | none => (default, false)
   | some e =>
-    match (scanOrder r.length e.idx).find? (fun i => p (e.vals.getD i default)) with
+    match (scanOrder r.length e.idx e.wrapped).find? (fun i => p (e.vals.getD i default)) with
     | some i => (e.vals.getD i default, true)
     | none => (default, false)
 
@@ -49,7 +52,7 @@ def write (r : Rat κ ν) (k : κ) (v : ν) : Rat κ ν :=
     { r with tab := r.tab.set k { vals := (List.replicate r.length default).set 0 v, idx := 0 } }
   | some e =>
     let idx := (e.idx + 1) % r.length
-    { r with tab := r.tab.set k { vals := e.vals.set idx v, idx := idx } }
+    { r with tab := r.tab.set k { vals := e.vals.set idx v, idx := idx, wrapped := e.wrapped || idx == 0 } }
 
 /-- `Values()`: newest slot of every key (as an association list in table order;
 Go returns a map, callers range over it — order-independence is C08's lemma). -/
@@ -59,7 +62,7 @@ def values (r : Rat κ ν) : List (κ × ν) :=
 /-- `FindValues(p)`: for every key the first slot in scan order satisfying `p`. -/
 def findValues (r : Rat κ ν) (p : ν → Bool) : List (κ × ν) :=
   r.tab.entries.filterMap (fun (k, e) =>
-    match (scanOrder r.length e.idx).find? (fun i => p (e.vals.getD i default)) with
+    match (scanOrder r.length e.idx e.wrapped).find? (fun i => p (e.vals.getD i default)) with
     | some i => some (k, e.vals.getD i default)
     | none => none)
 
